@@ -13,6 +13,7 @@ import (
 	"math/big"
 	"net"
 	"os"
+	"reflect"
 	"runtime"
 	"strings"
 	"sync"
@@ -437,16 +438,17 @@ func within(d time.Duration, f func()) bool {
 func (r *run) hang(what string) error { return r.hangOpt(what, true) }
 
 func (r *run) hangOpt(what string, rescue bool) error {
+	wd := watchdog()
 	stuck := dnsGoroutines()
 	evs := r.log.String()
 	r.release()
 	if len(stuck) == 0 {
-		fmt.Fprintf(os.Stderr, "c13: INFRASTRUCTURE: %s did not finish within %v but no goroutine is inside miekg/dns\n%s\n", what, watchdog(), evs)
+		fmt.Fprintf(os.Stderr, "c13: INFRASTRUCTURE: %s did not finish within %v but no goroutine is inside miekg/dns\n%s\n", what, wd, evs)
 		os.Exit(2)
 	}
 	hangProven.Store(true)
 	var sb strings.Builder
-	fmt.Fprintf(&sb, "I7: %s did not return within the watchdog (%v) with ReadTimeout=IdleTimeout=1h; %d goroutine(s) stuck inside miekg/dns:\n", what, watchdog(), len(stuck))
+	fmt.Fprintf(&sb, "I7: %s did not return within the watchdog (%v) with ReadTimeout=IdleTimeout=1h; %d goroutine(s) stuck inside miekg/dns:\n", what, wd, len(stuck))
 	for i, g := range stuck {
 		if i >= 4 {
 			break
@@ -907,6 +909,16 @@ func (r *run) invariants() error {
 	return nil
 }
 
+// connsLeft returns the number of connections the server still tracks (Server.conns, read by
+// reflection; 0 when the field does not exist). Only meaningful once the server is quiescent.
+func connsLeft(srv *dns.Server) int {
+	f := reflect.ValueOf(srv).Elem().FieldByName("conns")
+	if !f.IsValid() || f.Kind() != reflect.Map {
+		return 0
+	}
+	return f.Len()
+}
+
 // closedAndLeakFree is I6.
 func (r *run) closedAndLeakFree() error {
 	switch {
@@ -942,6 +954,9 @@ func (r *run) closedAndLeakFree() error {
 	for {
 		g := dnsGoroutines()
 		if len(g) == 0 {
+			if n := connsLeft(r.srv); n != 0 {
+				return r.fail("I6: %d connection(s) are still registered with the server (Server.conns) after shutdown completed and every goroutine has gone", n)
+			}
 			return nil
 		}
 		if time.Now().After(deadline) {
